@@ -2,6 +2,7 @@ package props
 
 import (
 	"bytes"
+	"math"
 	"crypto/rand"
 	"crypto/tls"
 	"encoding/base64"
@@ -21,13 +22,22 @@ import (
 
 func init() {
 	register(&Prop{ID: "C09", Run: runC09, MinNontrivial: 200, RaceSecondPass: true,
-		Rule:        "each case = one input string presented to all six inbound entry points (plus direct DecryptBytes/Decrypt/DecryptSymmetricKey calls in the cipher classes) under one of 8 SP configurations (empty store, no keys, nil clock, skip on/off, encryption-cert validation with empty/junk cert); classes: end-to-end ciphertext matrix (valid wrapped key, data ciphertext of every length 0-80, every final padding byte, all-zero plaintext, wrong key sizes, unknown algorithms, EncryptedKey ciphertext lengths 0-300), truncations/bit-flips/splices/base64+DEFLATE damage of generated and captured messages, hostile shapes (deep/wide trees, many Signatures, malformed Signature parts, DOCTYPE); oracle: no panic, process survives, exactly one of result/error; non-trivial = input that base64-decodes (reaches inflate/XML/crypto logic); a second pass repeats a subset under the race detector (checkptr)",
+		Rule:        "each case = one input string presented to all six inbound entry points (plus direct DecryptBytes/Decrypt/DecryptSymmetricKey calls in the cipher classes) under one of 12 SP configurations (empty store, no keys, nil clock, skip on/off, encryption-cert validation with empty/junk cert, decompression limits MaxInt64 / negative / MinInt64 / 1); classes: end-to-end ciphertext matrix (valid wrapped key, data ciphertext of every length 0-80, every final padding byte, all-zero plaintext, wrong key sizes, unknown algorithms, EncryptedKey ciphertext lengths 0-300), truncations/bit-flips/splices/base64+DEFLATE damage of generated and captured messages, hostile shapes (deep/wide trees, many Signatures, malformed Signature parts, DOCTYPE); oracle: no panic, process survives, exactly one of result/error; non-trivial = input that base64-decodes (reaches inflate/XML/crypto logic); a second pass repeats a subset under the race detector (checkptr)",
 		Assumptions: []string{"a watchdog firing is inconclusive, not a violation (the round-trip screen is super-linear on deep trees)", "DecryptBytes may return (nil, nil) for an empty plaintext; slice nil-ness is not tested"}})
 }
 
 type c09cfg struct {
 	name string
 	mk   func(w *World) *saml2.SAMLServiceProvider
+}
+
+func cfgByName(cfgs []c09cfg, name string) c09cfg {
+	for _, c := range cfgs {
+		if c.name == name {
+			return c
+		}
+	}
+	return cfgs[0]
 }
 
 func c09Configs() []c09cfg {
@@ -66,6 +76,28 @@ func c09Configs() []c09cfg {
 			sp, _, _ := NewSP(w.Now, w.IdP[0])
 			sp.ValidateEncryptionCert = true
 			sp.SPKeyStore = dsig.TLSCertKeyStore(tls.Certificate{Certificate: [][]byte{[]byte("junk-not-der")}, PrivateKey: w.SPEnc.Key.RSA()})
+			return sp
+		}},
+		{"limit-maxint64", func(w *World) *saml2.SAMLServiceProvider {
+			sp, _, _ := NewSP(w.Now, w.IdP[0])
+			sp.SPKeyStore = &RSAKeyStore{C: w.SPEnc}
+			sp.MaximumDecompressedBodySize = math.MaxInt64 // "no limit"
+			return sp
+		}},
+		{"limit-negative", func(w *World) *saml2.SAMLServiceProvider {
+			sp, _, _ := NewSP(w.Now, w.IdP[0])
+			sp.MaximumDecompressedBodySize = -2
+			sp.SkipSignatureValidation = true
+			return sp
+		}},
+		{"limit-minint64", func(w *World) *saml2.SAMLServiceProvider {
+			sp, _, _ := NewSP(w.Now, w.IdP[0])
+			sp.MaximumDecompressedBodySize = math.MinInt64
+			return sp
+		}},
+		{"limit-one", func(w *World) *saml2.SAMLServiceProvider {
+			sp, _, _ := NewSP(w.Now, w.IdP[0])
+			sp.MaximumDecompressedBodySize = 1
 			return sp
 		}},
 		{"setter", func(w *World) *saml2.SAMLServiceProvider {
@@ -269,7 +301,7 @@ func runC09(c *mon.Ctx) {
 		cs.Desc("alg=%s keyalg=%s %s", t.alg, ka, t.desc)
 		cs.Input([]byte(doc))
 		cs.Nontrivial(cs.Description())
-		cfg := cfgs[[]int{0, 1, 7}[k%3]]
+		cfg := cfgByName(cfgs, []string{"full", "skip", "setter", "limit-maxint64"}[k%4])
 		c09Call(cs, cfg.mk(w), cfg.name, b64([]byte(doc)))
 		// direct calls
 		eaT := &types.EncryptedAssertion{CipherValue: b64(t.data), EncryptionMethod: types.EncryptionMethod{Algorithm: t.alg},
@@ -303,7 +335,10 @@ func runC09(c *mon.Ctx) {
 		ka := keyAlgs[k%3]
 		ek := &types.EncryptedKey{CipherValue: b64(d), EncryptionMethod: types.EncryptionMethod{Algorithm: ka}}
 		if k%4 == 0 {
-			ek.EncryptionMethod.DigestMethod = &types.DigestMethod{Algorithm: []string{"", sim.DigSHA1, sim.DigSHA256, sim.DigSHA512, "urn:bogus"}[k/4%5]}
+			digs := []string{"", sim.DigSHA1, sim.DigSHA256, sim.DigSHA512, "urn:bogus", "http://www.w3.org/2001/04/xmlenc#sha256", "http://www.w3.org/2001/04/xmlenc#sha512",
+				"http://www.w3.org/2001/04/xmlenc#ripemd160", "http://www.w3.org/2001/04/xmldsig-more#sha224", "http://www.w3.org/2001/04/xmldsig-more#sha384", "http://www.w3.org/2001/04/xmldsig-more#md5",
+				"http://www.w3.org/2007/05/xmldsig-more#sha3-256", "http://www.w3.org/2001/04/xmlenc#sha384", "http://www.w3.org/2007/05/xmldsig-more#whirlpool"}
+			ek.EncryptionMethod.DigestMethod = &types.DigestMethod{Algorithm: digs[k/4%len(digs)]}
 		}
 		cs.Desc("EncryptedKey ciphertext len=%d keyalg=%s", n, ka)
 		cs.Input(d)
@@ -321,6 +356,9 @@ func runC09(c *mon.Ctx) {
 			}
 		}
 		spec := &sim.EncSpec{DataAlg: sim.AES128CBC, KeyAlg: ka, To: w.SPEnc}
+		if ek.EncryptionMethod.DigestMethod != nil {
+			spec.Digest = &ek.EncryptionMethod.DigestMethod.Algorithm
+		}
 		doc := unsignedResponseWith(w, sim.EncryptedAssertionRaw(spec, b64(bytes.Repeat([]byte{1}, 48)), b64(d)))
 		c09Call(cs, cfgs[0].mk(w), "full", b64([]byte(doc)))
 	}
